@@ -307,11 +307,16 @@ class Indicator(ABC):
 
     def purge(self):
         """Remove this indicator value from all Candles"""
-        self._candles.purge(
-            {self.name}
-            | {indicator.name for indicator in self.sub_indicators.values()}
-            | {indicator.name for indicator in self.managed_indicators.values()}
-        )
+        self._candles.purge(self._reading_names())
+
+    def _reading_names(self) -> set:
+        """Names of every reading this indicator and its helper indicators, at any depth, write"""
+        names = {self.name}
+        for indicator in list(self.sub_indicators.values()) + list(
+            self.managed_indicators.values()
+        ):
+            names |= indicator._reading_names()
+        return names
 
     def recalculate(self):
         """Re-calculate this indicator value for all Candles"""
